@@ -1,9 +1,9 @@
-(* Obligation C20/lognormal_logcdf_eq_log_cdf.  Statement as printed by Coq from Inferno.C20.DistProofs; proof by reference.
+(* Obligation C20/lognormal_logcdf_eq_log_cdf.  Statement as printed by Coq from Inferno.C20.DistLogNormal; proof by reference.
    This file contains nothing else, so the statement cannot be weakened quietly. *)
 From Coq Require Import Reals List ZArith Bool.
 From Coquelicot Require Import Coquelicot.
 From Flocq Require Import Core.Raux.
-From Inferno Require Import Base.Num Base.NumR C20.Model C20.Spec C20.DistProofs.
+From Inferno Require Import Base.Num Base.NumR Gen.Distributions C20.Model C20.Spec C20.DistLogNormal.
 Import ListNotations.
 Open Scope R_scope.
 Theorem lognormal_logcdf_eq_log_cdf : forall (erf : R -> R) (x loc scale : T RN),
@@ -11,5 +11,5 @@ Theorem lognormal_logcdf_eq_log_cdf : forall (erf : R -> R) (x loc scale : T RN)
   lognormal_cdf RN erf x loc scale = normal_cdf RN erf (Rpower.ln x) loc scale /\
   ((forall z : R, -1 < erf z) ->
    Rtrigo_def.exp (lognormal_logcdf RN erf x loc scale) = lognormal_cdf RN erf x loc scale).
-Proof. exact (@Inferno.C20.DistProofs.lognormal_logcdf_eq_log_cdf). Qed.
+Proof. exact (@Inferno.C20.DistLogNormal.lognormal_logcdf_eq_log_cdf). Qed.
 Print Assumptions lognormal_logcdf_eq_log_cdf.
